@@ -470,6 +470,23 @@ func (m *C08) AfterMsg(w *eng.World, st *eng.MsgStep) {
 		return
 	}
 
+	// the account whose signature the chain demands (GetSigners) is exactly the account in the message's role
+	// field: the handlers authorise the field, the ante handler authenticates GetSigners
+	if signer != nil && st.Res.Stage != "basic" && st.Res.Stage != "decode" {
+		var got []sdk.AccAddress
+		func() {
+			defer func() {
+				if r := recover(); r != nil {
+					got = nil
+				}
+			}()
+			got = st.Msg.GetSigners()
+		}()
+		if len(got) != 1 || !got[0].Equals(signer) {
+			w.Violation("C08", "signers-differ-from-role-field/"+st.Kind, "%s: GetSigners() = %v but the role is checked against %s", st.Kind, got, signer)
+		}
+	}
+
 	if st.Res.OK {
 		if !roleOK {
 			w.Violation("C08", "accepted-without-role/"+st.Kind, "%s signed by %s was accepted but the signer does not hold the required role (%s) in the pre-state", st.Kind, signer, roleWhy)
